@@ -205,7 +205,11 @@ def check_case(case, ctx):
             if crashed(valid) or not valid[0]:
                 continue
             skip = stateful[op[1] % len(stateful)]
-            if op[2] and not init[skip]:
+            if op[2]:
+                r = guarded(ctx, "init_vars", lambda: els[skip].init_vars(engine=eng))
+                if crashed(r):
+                    return
+                init[skip], fresh[skip] = True, False
                 try:
                     els[skip].step(net=net, engine=eng, **S.opts_kwargs(cur_opts), **cur_pars)
                     failed = False
